@@ -2,6 +2,8 @@
 
 from __future__ import annotations
 
+from types import SimpleNamespace
+
 import ast
 from dataclasses import dataclass
 
@@ -761,12 +763,40 @@ def buffer_once(ctx, chk, rule: str = "BUFFER-ONCE") -> None:
             if not ok and f.cls is not None and f.name.startswith("_") and not f.name.startswith("__"):
                 callers = [g_ for g_ in ctx.prog.all_functions() if g_ is not f and any(isinstance(x, ast.Attribute) and x.attr == f.name for x in ctx.own_nodes(g_))]
                 ok = bool(callers) and all(g_.name == "__init__" and g_.cls is f.cls for g_ in callers)
-            if ok:
+            if not ok and d.obj not in bufcls and not isinstance(d, SimpleNamespace) and _carries_existing_buffer(ctx, d.obj, node, carriers):
+                chk.ok(rule, key, "the new state object is handed the existing buffer", ctx.loc(f, node), sample=False)
+            elif ok:
                 chk.ok(rule, key, "built during construction only", ctx.loc(f, node), sample=False)
             else:
                 what = d.obj.name if d.obj in bufcls else f"{d.obj.name} (which carries a fresh sleep buffer as a field default)"
                 chk.refute(rule, key, f"{f.qualname} builds a new {what} (`{norm(node)[:60]}`): every command parked for a sleeping node and every outstanding-request marker held at that moment is silently dropped", ctx.loc(f, node))
     chk.floor(rule, "bindings of the sleep buffer", n, 1)
+
+
+def _carries_existing_buffer(ctx, cls, call: ast.Call, carriers: list) -> bool:
+    """`State(protocol, version, self._state.message_buffer)`: the field of the state class whose default builds a fresh
+    buffer is given explicitly, as a plain attribute read of an object that exists already (not a call)."""
+    order = [nm for nm, _v in cls.attr_order]
+    for i, (nm, val) in enumerate(cls.attr_order):
+        if val is None or not isinstance(val, ast.Call):
+            continue
+        kws = {k.arg: k.value for k in val.keywords}
+        if "default_factory" not in kws:
+            continue
+        dd = ctx.prog.resolve_expr(cls.module, kws["default_factory"]) if isinstance(kws["default_factory"], (ast.Name, ast.Attribute)) else None
+        if dd is None or dd.kind != "class" or dd.obj not in carriers:
+            continue
+        if isinstance(kws.get("init"), ast.Constant) and kws["init"].value is False:
+            return False
+        given = None
+        if i < len(call.args) and not any(isinstance(a, ast.Starred) for a in call.args):
+            given = call.args[i]
+        for k in call.keywords:
+            if k.arg == nm:
+                given = k.value
+        if given is None or not isinstance(given, ast.Attribute) or any(isinstance(x, ast.Call) for x in ast.walk(given)):
+            return False
+    return bool(order)
 
 
 def _replace_of_carrier(ctx, f: FuncInfo, node: ast.Call, carriers: list):
